@@ -140,6 +140,19 @@ def relation(g, rd, f, cond_idx, ctx, polarity=True):
     or None.  lin is a frozenset of items for hashing/equality."""
     c = comparison(f, cond_idx)
     if not c:
+        # a predicate moved into an inlined helper (`if (IsFull(head, tail))`): the relation its single return states, with the
+        # helper's parameters resolved to the arguments of this call
+        n = f.nodes[cond_idx]
+        hops = 0
+        while n['k'] in ('cast', 'paren') and hops < 4:
+            n = f.nodes[n['e']]
+            hops += 1
+        if n['k'] == 'call' and getattr(g, 'ctxs', None):
+            for c2 in g.ctxs:
+                if c2 is not None and c2.call is n and c2.caller is f and c2.parent is ctx and not c2.lambda_of:
+                    rets = [m for m in c2.f.nodes if m['k'] == 'return' and m.get('e') is not None and m['e'] >= 0]
+                    if len(rets) == 1:
+                        return relation(g, rd, c2.f, rets[0]['e'], c2, polarity)
         return None
     op, l, r = c
     a = linear(g, rd, f, l, ctx)
